@@ -622,7 +622,29 @@ func TestVxC12Decode(t *testing.T) {
 				}
 			}
 			dstT := vxPick(c.Type, []cqlspec.Value{c.Value}, ch, vxDst, false)
-			return vxDecodeInto(info, c, b, dstT, k, ch, "drawn-target")
+			if err := vxDecodeInto(info, c, b, dstT, k, ch, "drawn-target"); err != nil {
+				return err
+			}
+			if c.Type.Kind == cqlspec.UDT && len(c.Type.Elems) >= 2 && !c.Value.Null && len(c.Value.Elems) == len(c.Type.Elems) && c.Proto >= 3 {
+				// a value written before the last fields were added to the type ends early: those fields are null.
+				// Decoded into a destination that held the full value before.
+				drop := 1 + ch.next(len(c.Type.Elems)-1)
+				short := cqlspec.Value{Elems: append([]cqlspec.Value{}, c.Value.Elems...)}
+				cut := 0
+				for i := len(short.Elems) - drop; i < len(short.Elems); i++ {
+					short.Elems[i] = cqlspec.NullValue()
+					cut += 4
+				}
+				sb := cqlspec.Encode(c.Type, short, c.Proto)
+				if len(sb) >= cut {
+					full := c.Value
+					c2 := &vxValCase{Proto: c.Proto, Type: c.Type, Value: short, Dirty: &full}
+					holder := vxPick(c.Type, []cqlspec.Value{short, full}, ch, vxDst, false)
+					k.Class("udt value that ends before its type's last fields")
+					return vxDecodeInto(info, c2, sb[:len(sb)-cut], holder, k, ch, "short-udt")
+				}
+			}
+			return nil
 		},
 	})
 }
